@@ -880,6 +880,53 @@ let suite_codec (line : string) : string =
         (if List.length !c.vc_deleted <= 1 then show (vchange_decode (take (int_of_string cut) bytes)) else "skip")
   | _ -> failwith "bad codec case"
 
+(* ---------- suite: gccheck (the remove_obsolete_files model on an observed directory) ---------- *)
+let suite_gccheck (line : string) : string =
+  match split_nonempty ' ' line with
+  | [ id; facts ] ->
+      let listing = split_nonempty ';' (between facts "D") in
+      let g = String.split_on_char '|' (between facts "G") in
+      (match g with
+       | [ live; inuse; wal; prev; man; cur ] ->
+           let nums s = List.map n_of_string (split_nonempty ';' s) in
+           let view = { g_live = nums live; g_inuse = nums inuse; g_wal = n_of_string wal;
+                        g_prev_wal = (if prev = "-" then None else Some (n_of_string prev));
+                        g_manifest = n_of_string man } in
+           let cur = nums cur in
+           let fname_of (s : string) : fname option =
+             let num_between pre suf =
+               let l = String.length s and lp = String.length pre and ls = String.length suf in
+               if l > lp + ls && String.sub s 0 lp = pre && String.sub s (l - ls) ls = suf
+               then (try Some (n_of_string (String.sub s lp (l - lp - ls))) with _ -> None) else None in
+             if s = "CURRENT" then Some FCurrent else if s = "LOCK" then Some FLock
+             else match num_between "MANIFEST-" ".manifest" with Some nn -> Some (FManifest nn) | None ->
+               match num_between "wal/wal-" ".log" with Some nn -> Some (FWal nn) | None ->
+               match num_between "data/" ".rdb" with Some nn -> Some (FTable nn) | None ->
+               match num_between "" ".dbtemp" with Some nn -> Some (FTemp nn) | None -> None in
+           let verdicts =
+             List.map
+               (fun s ->
+                 match fname_of s with
+                 | None -> "unknown:" ^ s
+                 | Some f ->
+                     if not (keep view f) then "model-deletes:" ^ s
+                     else
+                       (match f with
+                        | FCurrent | FLock -> "needed"
+                        | FManifest nn -> if nn = view.g_manifest then "needed" else "orphan-manifest:" ^ s
+                        | FWal nn -> if int_of_n nn >= int_of_n view.g_wal || view.g_prev_wal = Some nn then "needed" else "extra:" ^ s
+                        | FTable nn -> if List.mem nn cur then "needed" else if List.mem nn view.g_live || List.mem nn view.g_inuse then "held:" ^ s else "extra:" ^ s
+                        | FTemp _ -> "extra:" ^ s))
+               listing
+           in
+           let bad = List.filter (fun v -> v <> "needed") verdicts in
+           let missing = List.filter (fun nn -> not (List.mem ("data/" ^ string_of_n nn ^ ".rdb") listing)) cur in
+           Printf.sprintf "%s %s" id
+             (if bad = [] && missing = [] then "exact"
+              else String.concat "," (bad @ List.map (fun nn -> "missing:" ^ string_of_n nn) missing))
+       | _ -> failwith "bad gc facts")
+  | _ -> failwith "bad gccheck case"
+
 let () =
   let suite = Sys.argv.(1) in
   let f =
@@ -899,6 +946,7 @@ let () =
     | "lock" -> suite_lock
     | "sched" -> suite_sched
     | "codec" -> suite_codec
+    | "gccheck" -> suite_gccheck
     | _ -> failwith ("unknown suite " ^ suite)
   in
   try
